@@ -9,6 +9,9 @@ def handle (j : Json) : Json :=
   | some "eval" => Ops.evalOp j
   | some "scopeget" => Ops.scopegetOp j
   | some "render" => Ops.renderOp j
+  | some "scopetree" => Ops.scopetreeOp j
+  | some "reload" => Ops.reloadOp j
+  | some "fsparse" => Ops.fsparseOp j
   | some "ping" => Json.mkObj [("pong", true)]
   | _ => Json.mkObj [("bad", "unknown op")]
 
